@@ -13,11 +13,13 @@ macro_rules! impl_datatype_partial_eq {
                     (Self::Bool(a), Self::Bool(b)) => a == b,
                     (Self::Blob(a), Self::Blob(b)) => a == b,
 
-                    // Numeric types are promoted to f64 to compare
+                    // Numeric types are compared by exact value (integers are not rounded to f64)
                     (a, b) if a.is_numeric() && b.is_numeric() => {
                         match (a.to_f64(), b.to_f64()) {
-                            // NaN is equal to itself (and only to itself), so that `Eq` is an equivalence
-                            (Some(x), Some(y)) => x == y || (x.is_nan() && y.is_nan()),
+                            (Some(x), Some(y)) => {
+                                $crate::types::numeric_total_cmp(a.to_i128(), x, b.to_i128(), y)
+                                    == std::cmp::Ordering::Equal
+                            }
                             _ => false,
                         }
                     }
@@ -45,13 +47,15 @@ macro_rules! impl_datatype_partial_ord {
                     // Blob uses lexicographic ordering
                     (Self::Blob(a), Self::Blob(b)) => a.partial_cmp(b),
 
-                    // Numeric types are promoted to f64 and compared
+                    // Numeric types are compared by exact value (integers are not rounded to f64)
                     (a, b) if a.is_numeric() && b.is_numeric() => {
                         match (a.to_f64(), b.to_f64()) {
-                            // total order: NaN sorts after every other number and equals itself
-                            (Some(x), Some(y)) => x
-                                .partial_cmp(&y)
-                                .or_else(|| Some(x.is_nan().cmp(&y.is_nan()))),
+                            (Some(x), Some(y)) => Some($crate::types::numeric_total_cmp(
+                                a.to_i128(),
+                                x,
+                                b.to_i128(),
+                                y,
+                            )),
                             _ => None,
                         }
                     }
@@ -67,6 +71,19 @@ macro_rules! impl_datatype_partial_ord {
 #[macro_export]
 macro_rules! impl_datatype_ord_traits {
     ($($type_name:tt)+) => {
+        impl $($type_name)+ {
+            /// Exact value of an integer variant (`to_f64` rounds beyond 2^53).
+            #[inline]
+            pub(crate) fn to_i128(&self) -> Option<i128> {
+                match self {
+                    Self::Int(v) => Some(v.0 as i128),
+                    Self::BigInt(v) => Some(v.0 as i128),
+                    Self::UInt(v) => Some(v.0 as i128),
+                    Self::BigUInt(v) => Some(v.0 as i128),
+                    _ => None,
+                }
+            }
+        }
         $crate::impl_datatype_partial_eq!($($type_name)+);
         $crate::impl_datatype_partial_ord!($($type_name)+);
 
